@@ -215,7 +215,9 @@ func doReplay() int {
 	if err != nil {
 		return fatal("%v", err)
 	}
+	*prop = rp.Property
 	profile()
+	loadKnown(*known, *prop)
 	sim.WitnessMode = rp.Known != ""
 	res, tr, logText := execPlan(&rp.Plan)
 	if *dumpLog {
